@@ -37,13 +37,39 @@ func checkC25(c *Ctx) {
 		var S absint.Dep
 		nameOK := true
 		panicked := ""
+		// When every path through String() ends in the same exactly known text
+		// (same formats, same parts, integer parts that are bit-for-bit copies of
+		// the same word bits) the text is one function of the word
+		// and the branches taken on the way (e.g. inside an immediate decoder
+		// whose result is then not printed) do not influence it.
+		sameText := true
+		firstSig := ""
+		for _, p := range tp {
+			if p.Panicked {
+				continue
+			}
+			sig, exact := absint.TextSig(p.Result)
+			if !exact {
+				sameText = false
+				break
+			}
+			if firstSig == "" {
+				firstSig = sig
+			} else if sig != firstSig {
+				sameText = false
+			}
+		}
 		for _, p := range tp {
 			if p.Panicked {
 				panicked = c.Prog.Pos(p.PanicPos)
 				continue
 			}
-			for _, cr := range p.Conds {
-				S |= cr.Dep
+			if !sameText {
+				// the text differs between paths: the bits deciding the path
+				// influence it
+				for _, cr := range p.Conds {
+					S |= cr.Dep
+				}
 			}
 			S |= absint.DepsOf(p.Result)
 			switch r := p.Result.(type) {
